@@ -22,7 +22,7 @@ ALPHABET = ["OK_KA", "OK_CLOSE", "REFUSE", "CLOSE0", "RESET", "E4XX_LEN", "E5XX_
 BIG_PAD = (b"0123456789abcdef" * 200)
 # further behaviours (used in shorter sequences): non-200 replies whose body is binary / carries the JSON-RPC content type / is
 # truncated, and a bodiless status announcing a length
-EXTENDED = ["E4XX_BIN", "E500_JSONCT", "E5XX_TRUNC", "E204_LEN", "E4XX_BIGUTF8"]
+EXTENDED = ["E4XX_BIN", "E500_JSONCT", "E5XX_TRUNC", "E204_LEN", "E4XX_BIGUTF8", "E599_NOREASON", "E520_BLANKREASON", "E404_NOREASON", "E299_OK"]
 EOF_SPIN_LIMIT = 300
 
 
@@ -276,6 +276,14 @@ class PeerSocket(object):
             self.peer_closed = True
         elif b == "E204_LEN":
             self._emit(b"HTTP/1.1 204 No Content\r\nContent-Length: 25\r\n\r\n")
+        elif b == "E599_NOREASON":
+            self._emit(b"HTTP/1.1 599\r\nContent-Length: 2\r\n\r\n{}")
+        elif b == "E520_BLANKREASON":
+            self._emit(b"HTTP/1.1 520 \r\nContent-Length: 0\r\n\r\n")
+        elif b == "E404_NOREASON":
+            self._emit(b"HTTP/1.1 404\r\nContent-Length: 0\r\n\r\n")
+        elif b == "E299_OK":
+            self._emit(http_resp(299, "Strange", good))
         elif b == "EMPTY200":
             self._emit(http_resp(200, "OK", b""))
         elif b == "GARBAGE200":
